@@ -3,5 +3,5 @@ From Coq Require Import List Extraction ExtrOcamlBasic.
 From Kenlm Require Import C15.IoModel.
 Extraction Language OCaml.
 Extraction "extracted/c15_model.ml"
-  write_loop partial_read read_loop read_or_throw read_or_eof pread_loop pwrite_loop single_call overwrite
+  write_loop partial_read read_loop read_or_throw read_or_eof sniff_magic magic_size pread_loop pwrite_loop single_call overwrite
   fs_step fs_ops fs_run strip.
